@@ -287,7 +287,9 @@ impl Collector {
     pub fn classes(&self) -> Vec<(u64, u64, Violation)> {
         let m = self.map.lock().unwrap();
         let mut v: Vec<_> = m.values().cloned().collect();
-        v.sort_by_key(|e| e.1);
+        // enumerated-schedule findings first (they are the reproducible form of everything a
+        // parallel sweep may see on a library with shared mutable state), then simplest first
+        v.sort_by_key(|e| (!e.2.sub.ends_with(".schedule"), e.1));
         v
     }
 }
